@@ -45,7 +45,7 @@ def build_real():
 def run(tier, seed, t0):
     w = build()
     wr = build_real()
-    budget = 1500 if tier == "thorough" else 150
+    budget = 500 if tier == "thorough" else 150
     fams = QUICK + (THOROUGH if tier == "thorough" else [])
     args = []
     for f, n in fams:
